@@ -45,4 +45,31 @@ theorem outward_orientation_kept {K : Type} [Field K] [LinearOrder K] [IsStrictO
     let vol' := if dR < 0 then -(dR * vol) else dR * vol
     (0 < vol → 0 < vol') ∧ (vol < 0 → vol' < 0) := orientation_preserved dR vol hR
 
+/-- the executable model of `affine_transform_mesh` (the definition the driver runs next to the real
+    function): EVERY vertex is moved by `R·v + t`, the triangle list keeps its length and order, and
+    each triangle is reversed exactly when `det R < 0` -/
+theorem affine_moves_every_vertex {K : Type} [CommRing K] [LinearOrder K] [IsStrictOrderedRing K]
+    (m : M3 K) (t : V3 K) (vs : List (V3 K)) (ts : List (Nat × Nat × Nat)) :
+    (affineTransform m t vs ts).1 = vs.map (m.apply t) ∧
+    (affineTransform m t vs ts).2 = ts.map (fun tr => if m.det < 0 then flipTri tr else tr) := by
+  rw [affineTransform_eq]; exact ⟨rfl, rfl⟩
+
+/-- … and for every non-singular transform (rotations, shears, mirrors, any scale), every triangle and
+    EVERY reference point `p`: the triangle as written in the output (new index order, new vertex
+    coordinates) is seen from the transformed `p` with the same orientation as the input triangle is seen
+    from `p` — inside stays inside, outside stays outside, coplanar stays coplanar -/
+theorem affine_keeps_outward_orientation {K : Type} [CommRing K] [LinearOrder K] [IsStrictOrderedRing K]
+    (m : M3 K) (t p d : V3 K) (vs : List (V3 K)) (tr : Nat × Nat × Nat) (hdet : m.det ≠ 0) :
+    let v := fun i => vs.getD i d
+    let v' := fun i => (vs.map (m.apply t)).getD i (m.apply t d)
+    let tr' := if m.det < 0 then flipTri tr else tr
+    let o := orient p (v tr.1) (v tr.2.1) (v tr.2.2)
+    let o' := orient (m.apply t p) (v' tr'.1) (v' tr'.2.1) (v' tr'.2.2)
+    (0 < o → 0 < o') ∧ (o < 0 → o' < 0) ∧ (o = 0 → o' = 0) :=
+  affine_orientation m t p vs tr hdet d
+
+/-- a mirror really flips: non-vacuity of the `det < 0` branch on the model the driver executes -/
+example : affineTransform (α := Int) ⟨-1, 0, 0, 0, 1, 0, 0, 0, 1⟩ ⟨5, 0, 0⟩ [⟨1, 2, 3⟩] [(0, 1, 2)]
+    = ([⟨4, 2, 3⟩], [(2, 1, 0)]) := by decide
+
 end NgVerif.Props.C17
